@@ -4,6 +4,7 @@ import KernDriver.Pitch
 import KernDriver.Tokens
 import KernDriver.C18
 import KernDriver.Abstract
+import KernDriver.Doc
 namespace KD
 open Lean
 
@@ -12,6 +13,7 @@ def dispatch (j : Json) : Except String Json := do
   if op.startsWith "c11." then KD.C11.handle op j
   else if op.startsWith "pitch." || op.startsWith "c16." || op.startsWith "c09." then KD.PitchOps.handle op j
   else if op.startsWith "abs." || op.startsWith "tok." then KD.AbsOps.handle op j
+  else if op.startsWith "doc." then KD.DocOps.handle op j
   else if op.startsWith "c18." then KD.C18.handle op j
   else if op.startsWith "c10." then KD.GkernOps.handle op j
   else throw s!"unknown op {op}"
